@@ -8,6 +8,7 @@ N1  ``return next((e for x in D if c), default)``           ->  ``for x in D: if
 N2  a list comprehension that calls a helper which must be run in place (a private helper or local closure with
     statement effects / loops)                              ->  the accumulator loop it abbreviates
 N4  ``for x in X: acc.append(x)``                               ->  ``acc.extend(X)``
+N14 ``for s in itertools.repeat(x, n): body``                      ->  ``for _ in range(n): s = x; body``
 N13 ``i = len(L); while i > 0: i -= 1; ... L[i] ...`` (and the forward form)  ->  ``for x in reversed(L)`` / ``for x in L``
 N12 ``yield from <pipeline>``                                      ->  ``for x in <pipeline>: yield x``
 N11 ``v = functools.reduce(f, X, init)``                          ->  ``v = init; for x in X: v = f(v, x)``
@@ -200,6 +201,15 @@ class _Ctx:
             counted = self._enumerate_loop(st)
             if counted is not None:
                 return self.block(counted)
+            if isinstance(st.iter, ast.Call) and self._callee(st.iter).split(".")[-1] == "repeat" and len(st.iter.args) == 2 and not st.iter.keywords \
+                    and self._callee(st.iter) in ("repeat", "itertools.repeat") and not st.orelse:
+                # N14: ``for s in itertools.repeat(x, n)``  ->  ``for _ in range(n): s = x``
+                t = self.tmp()
+                new = ast.For(target=ast.Name(id=t, ctx=ast.Store()), iter=ast.Call(func=ast.Name(id="range", ctx=ast.Load()), args=[st.iter.args[1]], keywords=[]),
+                              body=[ast.Assign(targets=[st.target], value=st.iter.args[0])] + list(st.body), orelse=[])
+                ast.copy_location(new, st)
+                ast.fix_missing_locations(new)
+                return self.stmt(new)
             unfolded = self._generator_loop(st)
             if unfolded is not None:
                 return self.block(unfolded)
